@@ -417,6 +417,7 @@ func phase1Service(list []string) {
 type blog struct {
 	syms   string
 	stream bool // also run the in-memory stream representation (identical for all layouts of a log: once per log)
+	wide   bool // thorough: substitute all 255 other byte values (otherwise the quick set)
 	rot    []int
 	seq    []item // written items only
 	label  string
@@ -458,6 +459,8 @@ func byteLogs() []blog {
 	for _, s := range pairs {
 		b := mkBlog(s, 0, make([]int, len(s)))
 		b.stream = true
+		// all 255 values: every line kind alone, every pair of small kinds, every pair with a marker
+		b.wide = r.Thorough() && (len(s) == 1 || !strings.ContainsAny(s, "BX") || strings.Contains(s, "M"))
 		out = append(out, b)
 		if len(s) == 2 {
 			out = append(out, mkBlog(s, 0, []int{1, 0}))
@@ -803,7 +806,7 @@ func phase3(logs []blog) {
 			jobs = append(jobs, job{b, c})
 		}
 	}
-	r.Sample(map[string]any{"phase": "P3 single-byte substitution", "lines": len(jobs), "values_quick": "0x00, b^1, b^0x80, LF, CR, '#', 'A' ('B' where the byte is 'A')", "values_thorough": "all 255 other byte values (in-memory stream) + the quick set on files"})
+	r.Sample(map[string]any{"phase": "P3 single-byte substitution", "lines": len(jobs), "values_quick": "0x00, b^1, b^0x80, LF, CR, '#', 'A' ('B' where the byte is 'A')", "values_thorough": "all 255 other byte values on the in-memory stream for every line kind alone, every pair of small kinds and every pair with a marker; the quick set everywhere (files and stream)"})
 	parFor(len(jobs), func(i int) {
 		b, c := jobs[i].b, jobs[i].line
 		d := <-dirPool
@@ -849,7 +852,7 @@ func phase3(logs []blog) {
 				r.Distinct(fmt.Sprintf("P3:%s+%d=%02x", b.seq[c].label[:1], off, v))
 			}
 			if b.stream {
-				for _, v := range substValues(orig, r.Thorough()) {
+				for _, v := range substValues(orig, b.wide) {
 					stream[spos+off] = v
 					checkSubst(b, "stream", c, off, v, readStream(stream, true, len(b.seq)+8))
 					r.Eval()
